@@ -1,6 +1,7 @@
 package props
 
 import (
+	"strings"
 	"testing"
 
 	"exoverif/sim"
@@ -18,11 +19,13 @@ func init() {
 		ID: "C16",
 		Rule: "rapid histories of the world machine over many dogfood epochs (minute identifier, block steps from seconds to multi-epoch gaps) weighted to undelegations, opt-outs and key replacements; " +
 			"non-trivial = at least 3 queue entries of at least 2 kinds (hold / opt-out / key pruning), registered in at least 2 different epochs, were released; distinct = hash of the (kind, outcome) sequence",
-		Gen:      GenOpts{Weights: w, HostilePct: 3, ExtremePct: 0, Anchor: true, Tempos: []int{8, 25, 70}, CapBits: 90, ClampBits: 40},
+		Gen:      GenOpts{Weights: w, HostilePct: 3, ExtremePct: 0, Anchor: true, Tempos: []int{8, 25, 70}, CapBits: 90, ClampBits: 40, Dynamic: queuesDynamic},
 		MinSteps: 30,
 		MaxSteps: 90,
 		Config: func(t *rapid.T) sim.Config {
 			cfg := worldConfig(t)
+			// the unbonding period the chain starts with (1..4 epochs)
+			cfg.EpochsUntilUnbonded = uint32(1 + uniform(t, 4, "unbonding-epochs"))
 			if uniform(t, 2, "testnet?") == 0 {
 				// on testnet chain ids anybody may update the dogfood parameters: the unbonding
 				// period changes in the middle of the histories
@@ -46,9 +49,40 @@ func init() {
 			m.Labels["holds-placed"] += q.heldPlaced
 			m.Labels["undelegations-not-held"] += q.notHeld
 			m.Labels["released-after-the-unbonding-period-was-changed"] += q.releasedUnderChangedN
+			m.Labels["holds-on-opting-out-operator-whose-opt-out-was-registered-under-a-longer-period"] += q.heldOptOutLongerN
 			return q.NonTrivial()
 		},
 	})
 }
 
 func TestC16(t *testing.T) { runWorldProp(t, "C16") }
+
+// queuesDynamic: while an operator is opting out on a chain whose unbonding period anybody may
+// change (testnet chain ids), changes of that period and undelegations become more likely, so
+// that "an undelegation from an operator that is opting out matures together with the opt-out"
+// is also exercised with an opt-out registered under another period than the current one (a
+// conjunction of three actions within a few blocks that the static weights almost never produce).
+func queuesDynamic(m *Machine, w map[string]int) map[string]int {
+	if w["setUnbonding"] == 0 || !strings.HasPrefix(m.C.W.Cfg.ChainID, utils.TestnetChainID) {
+		return w
+	}
+	ctx := m.C.Ctx()
+	chainID := m.chainIDNoRev()
+	opting := false
+	for _, o := range m.W.Operators {
+		if m.C.App.OperatorKeeper.IsOperatorRemovingKeyFromChainID(ctx, o.Acc(), chainID) {
+			opting = true
+			break
+		}
+	}
+	if !opting {
+		return w
+	}
+	out := map[string]int{}
+	for k, v := range w {
+		out[k] = v
+	}
+	out["setUnbonding"] = w["setUnbonding"] * 5
+	out["undelegate"] = w["undelegate"] * 2
+	return out
+}
